@@ -109,7 +109,7 @@ func c29Gen(rng *rand.Rand, tier string) []Case {
 		}
 	}
 	for i := 0; i < nConc/3+1; i++ {
-		out = append(out, Case{ID: fmt.Sprintf("rr%d", i), Ops: []string{fmt.Sprintf("grounds %d %d %d", 2+rng.Intn(6), 2000, rng.Int63())},
+		out = append(out, Case{ID: fmt.Sprintf("rr%d", i), Ops: []string{fmt.Sprintf("grounds %d %d %d", 3+rng.Intn(6), 3000, rng.Int63())},
 			Nontrivial: true, Tags: []string{"gated-rounds"}})
 	}
 	for i := 0; i < nConc; i++ {
@@ -246,8 +246,8 @@ func c29Conc(w, n1, n2 int) string {
 }
 
 // c29Rounds: many tiny races of a few writers against the gate opening: in every round a fresh
-// GatedWriter, w writers writing 3 lines each and one Flush, all released together; afterwards a final
-// Flush.  Every line must reach the sink exactly once.
+// GatedWriter, w writers writing 12 lines each and one Flush, all released together; afterwards a final
+// Flush (exactly one, as in the agent).  Every line must reach the sink exactly once.
 func c29Rounds(w, rounds int) string {
 	lost, dup := 0, 0
 	for r := 0; r < rounds; r++ {
@@ -260,16 +260,24 @@ func c29Rounds(w, rounds int) string {
 			go func(t int) {
 				defer wg.Done()
 				<-start
-				for i := 0; i < 3; i++ {
+				for i := 0; i < 12; i++ {
 					_, _ = gw.Write([]byte(fmt.Sprintf("%d.%d", t, i)))
 				}
 			}(t)
 		}
 		wg.Add(1)
-		go func() { defer wg.Done(); <-start; gw.Flush() }()
+		go func(r int) {
+			defer wg.Done()
+			<-start
+			// open the gate somewhere inside the burst of writes
+			for spin := 0; spin < (r%64)*40; spin++ {
+				_ = spin
+			}
+			gw.Flush()
+		}(r)
 		close(start)
 		wg.Wait()
-		gw.Flush()
+		// no second Flush: the agent opens the gate once; a line parked in the buffer after that is lost
 		seen := map[string]int{}
 		sink.mu.Lock()
 		for _, l := range sink.lines {
@@ -277,7 +285,7 @@ func c29Rounds(w, rounds int) string {
 		}
 		sink.mu.Unlock()
 		for t := 0; t < w; t++ {
-			for i := 0; i < 3; i++ {
+			for i := 0; i < 12; i++ {
 				switch n := seen[fmt.Sprintf("%d.%d", t, i)]; {
 				case n == 0:
 					lost++
